@@ -151,6 +151,25 @@ def make_settings(cfg):
     st = S.FeatureSettings(sl_settings=sl, nldf_settings=nldf)
     if cfg["normalize"]:
         st.assign_reasonable_normalizer()
+        kinds = cfg.get("norm_kinds")
+        if kinds:
+            # value-dependent normalisers on the nonlocal features (the recommended set for
+            # these settings holds constants only): their chain rule enters every
+            # orbital-derivative covariance
+            from ciderpress.dft import feat_normalizer as FN
+
+            lst = list(st.get_reasonable_normalizer())
+            for j, kd in enumerate(kinds[: cfg["n_nldf"]]):
+                k, c1, c2, p1, p2 = kd
+                if k == "density":
+                    lst[3 + j] = FN.DensityNormalizer(c1, p1)
+                elif k == "inhom":
+                    lst[3 + j] = FN.InhomogeneityNormalizer(c1, c2, p2)
+                elif k == "general":
+                    lst[3 + j] = FN.GeneralNormalizer(c1, c2, p1, p2)
+                elif k == "const":
+                    lst[3 + j] = FN.ConstantNormalizer(c1)
+            st.normalizers = FN.FeatNormalizerList(lst, slmode=sl.mode)
     return st
 
 
@@ -248,6 +267,7 @@ def gen_cfg(rng):
         "nsamps": nsamps,
         "default_noise": rng.choice([0.03, 0.01, 0.1]),
         "dseed": rng.below(10**9),
+        "norm_kinds": [[rng.choice(["const", "density", "inhom", "general"]), rng.choice([0.5, 1.0, 2.0]), rng.choice([0.25, 1.0]), rng.choice([-0.5, 0.5, 1.0]), rng.choice([-1, 1, 2])] for _ in range(2)] if rng.chance(0.6) else None,
     }
 
 
